@@ -322,47 +322,79 @@ theorem cpc_compress_lossless_run (T : HipTables) (lgK : Nat) (rcs : List Nat) (
 
 /-! ### The serialized image
 
-`serializeCore` / `deserializeCore` (DSModel/Cpc/Wire.lean) put the preamble around `compress` / `uncompress`
-(`genWire` = the wire constants generated from cpc_sketch.hpp; the two HIP registers travel as their 64-bit patterns).
-The full statement `cpc_image_lossless_full`: the image gives back the whole state (lg_k, C, table, window, offset,
-first interesting column, merged flag) and, for a non-merged sketch, both HIP registers.
-It is FALSE for the current code: an empty image stores no registers and `deserialize` starts the rebuilt sketch
-with `kxp = 0` instead of `k` (finding `deserialized-empty-sketch-estimator-state-lost`, replayed on the implementation
-by the check; proposed fix in proposed_fixes/).  `cpc_image_lossless_full_false` is that witness;
-`cpc_image_lossless_partial` proves the statement for every NON-EMPTY valid sketch. -/
+`serializeCore` / `deserializeCore` (DSModel/Cpc/Wire.lean) put the preamble around `compress` / `uncompress`; the two
+HIP registers travel as their 64-bit patterns.  `wireOf r` = the wire constants generated from cpc_sketch.hpp together
+with the SHAPE of `deserialize` on an empty image, which the translator reads from the current source
+(`DSGen.cpc_DESER_EMPTY_KXP_IS_K`): `pinnedWire` (r = false) is the code before fix de90ce5 — the rebuilt empty sketch
+keeps the declaration value `kxp = 0`; `repairedWire` (r = true) starts it with `kxp = 2^lg_k` like a new sketch;
+`genWire` is whatever the headers say now.
+
+`cpc_image_lossless_full W`: for every valid sketch — whose registers, when it is EMPTY, are those of every reachable
+empty sketch (`kxp = 2^lg_k`, `hip = 0`: new, empty union result, or deserialized by the repaired code) — the image gives
+back lg_k, C, table, window, offset, first interesting column, merged flag and, if not merged, both HIP registers.
+* `cpc_image_lossless_full_false`: FALSE for the pinned shape (the finding `deserialized-empty-sketch-estimator-state-lost`);
+* `cpc_image_lossless_partial`: true for every NON-EMPTY sketch in either shape;
+* `cpc_image_lossless_repaired`: TRUE in full for the repaired shape, and
+* `cpc_image_lossless_current`: hence for the current source (this obligation breaks if the fix is reverted). -/
 
 /-- sizes that fit the 32/64-bit fields of the image (always true for lg_k ≤ 26) -/
 def SizesOK (s : Sketch) (hb : HipBits) : Prop :=
   s.numCoupons < 256^4 ∧ hb.kxp < 256^8 ∧ hb.hip < 256^8 ∧ s.table.length < 256^4 ∧
   (compress genComp s).tableWords.length < 256^4 ∧ (compress genComp s).windowWords.length < 256^4
 
-def cpc_image_lossless_full : Prop :=
+/-- the registers of an empty sketch are those of a new one -/
+def RegsOK (s : Sketch) (hb : HipBits) : Prop := s.numCoupons = 0 → hb = ⟨pow2Bits s.lgK, 0⟩
+
+def cpc_image_lossless_full (W : WireConsts) : Prop :=
   ∀ (seedHash : Nat) (s : Sketch) (xs : List Nat) (hb : HipBits) (ofBits : Nat → Float),
     seedHash < 65536 → Inv s xs → (∀ x ∈ xs, x < 64 * 2^s.lgK) →
-    s.offset = determineCorrectOffset s.lgK s.numCoupons → SizesOK s hb →
-    ∃ s', deserializeCore genWire genComp seedHash (serializeCore genWire genComp seedHash s hb) ofBits
-        = some (s', if s.merged then ⟨0, 0⟩ else hb) ∧ sameContent s' s
+    s.offset = determineCorrectOffset s.lgK s.numCoupons → SizesOK s hb → RegsOK s hb →
+    ∃ s' hb', deserializeCore W genComp seedHash (serializeCore W genComp seedHash s hb) ofBits = some (s', hb') ∧
+      sameContent s' s ∧ (s.merged = false → hb' = hb)
 
-/-- the image of a new (empty, not merged) sketch with `kxp = 16.0` comes back with `kxp = 0` -/
-theorem cpc_image_lossless_full_false : ¬ cpc_image_lossless_full := by
+/-- pinned shape: the image of a new (empty, not merged) lg_k = 4 sketch with `kxp = 16.0` comes back with `kxp = 0` -/
+theorem cpc_image_lossless_full_false : ¬ cpc_image_lossless_full pinnedWire := by
   intro h
-  obtain ⟨s', h1, _⟩ := h 37836 (fresh 4) [] ⟨0x4030000000000000, 0⟩ (fun _ => 0.0) (by decide) (inv_fresh 4) (by simp)
-    rfl (by unfold SizesOK; decide +kernel)
-  have h2 : (deserializeCore genWire genComp 37836 (serializeCore genWire genComp 37836 (fresh 4) ⟨0x4030000000000000, 0⟩)
+  obtain ⟨s', hb', h1, _, h3⟩ := h 37836 (fresh 4) [] ⟨0x4030000000000000, 0⟩ (fun _ => 0.0) (by decide) (inv_fresh 4) (by simp)
+    rfl (by unfold SizesOK; decide +kernel) (by intro _; decide)
+  have h2 : (deserializeCore pinnedWire genComp 37836 (serializeCore pinnedWire genComp 37836 (fresh 4) ⟨0x4030000000000000, 0⟩)
       (fun _ => 0.0)).map Prod.snd = some ⟨0, 0⟩ := by decide +kernel
   rw [h1] at h2
-  simp [fresh] at h2
+  have := h3 rfl
+  rw [this] at h2
+  simp at h2
 
-/-- **the proved part**: every NON-EMPTY valid sketch is reproduced by its image (with the generated tables) -/
-theorem cpc_image_lossless_partial (seedHash : Nat) (s : Sketch) (xs : List Nat) (hb : HipBits) (ofBits : Nat → Float)
+/-- every NON-EMPTY valid sketch is reproduced by its image, in either shape -/
+theorem cpc_image_lossless_partial (r : Bool) (seedHash : Nat) (s : Sketch) (xs : List Nat) (hb : HipBits) (ofBits : Nat → Float)
     (hsh : seedHash < 65536) (h : Inv s xs) (hv : ∀ x ∈ xs, x < 64 * 2^s.lgK)
     (hoff : s.offset = determineCorrectOffset s.lgK s.numCoupons) (hsz : SizesOK s hb) (hne : s.numCoupons ≠ 0) :
-    ∃ s', deserializeCore genWire genComp seedHash (serializeCore genWire genComp seedHash s hb) ofBits
+    ∃ s', deserializeCore (wireOf r) genComp seedHash (serializeCore (wireOf r) genComp seedHash s hb) ofBits
         = some (s', if s.merged then ⟨0, 0⟩ else hb) ∧ sameContent s' s := by
   obtain ⟨h1, h2, h3, h4, h5, h6⟩ := hsz
   obtain ⟨s', he, e1, e2, e3, e4, e5, e6, e7⟩ :=
-    image_roundtrip genComp gen_tables_ok seedHash s xs hb ofBits hsh h hv hoff hne h1 h2 h3 h4 h5 h6
+    image_roundtrip r genComp gen_tables_ok seedHash s xs hb ofBits hsh h hv hoff hne h1 h2 h3 h4 h5 h6
   exact ⟨s', he, e1, e2, e3, e4, e5, e6, e7⟩
+
+/-- **the full statement holds for the repaired shape**, the empty sketch included -/
+theorem cpc_image_lossless_repaired : cpc_image_lossless_full repairedWire := by
+  intro seedHash s xs hb ofBits hsh h hv hoff hsz hregs
+  by_cases hc0 : s.numCoupons = 0
+  · obtain ⟨s', he, e1, e2, e3, e4, e5, e6, e7⟩ :=
+      image_roundtrip_empty true genComp seedHash s xs hb ofBits hsh h hv hoff hc0
+    refine ⟨s', _, he, ⟨e1, e2, e3, e4, e5, e6, e7⟩, ?_⟩
+    intro _; rw [hregs hc0]; rfl
+  · obtain ⟨s', he, hs⟩ := cpc_image_lossless_partial true seedHash s xs hb ofBits hsh h hv hoff hsz hc0
+    refine ⟨s', _, he, hs, ?_⟩
+    intro hm; rw [hm]; rfl
+
+/-- the current source has the repaired shape (regenerated from cpc_sketch_impl.hpp on every run) -/
+theorem cpc_source_is_repaired : genWire = repairedWire := by
+  have h : DSGen.cpc_DESER_EMPTY_KXP_IS_K = true := by decide
+  unfold genWire repairedWire; rw [h]
+
+/-- **the full image statement for the CURRENT source** -/
+theorem cpc_image_lossless_current : cpc_image_lossless_full genWire := by
+  rw [cpc_source_is_repaired]; exact cpc_image_lossless_repaired
 
 /-! Non-vacuity: a concrete stream on lg_k = 4 that passes through SPARSE → HYBRID (promotion at C = 2) with
 duplicates, coupons below / inside / above the window. -/
